@@ -1,10 +1,18 @@
 import TbbVerif.Core.Proto
 import TbbVerif.Model.C17
+import TbbVerif.Model.C17BackendDrv
+import TbbVerif.Model.C17BackrefDrv
+import TbbVerif.Model.C17SnapDrv
+import TbbVerif.Model.C17CoalDrv
 
 open TbbVerif
 
 def drivers : List (String × Proto.Driver) := [
-  ("c17", C17.driver)
+  ("c17", C17.driver),
+  ("c17bk", C17.BE.driver),
+  ("c17br", C17.BR.driver),
+  ("c17bv", C17.Snap.driver),
+  ("c17gs", C17.Coal.driver)
 ]
 
 def main (args : List String) : IO UInt32 := Proto.mainOf drivers args
